@@ -1,3 +1,154 @@
 import Holpy.Common.Sexp
-/- stub: replaced when the C02 model is built -/
-def main : IO Unit := Holpy.lineLoop (fun _ => "bad-op")
+import Holpy.C02.Model
+import Holpy.C02.Toy
+/-
+Line protocol for the C02 model (one s-expression in, one out):
+  (check NOGAPS COMPUTEONLY LEVEL FUEL THMS PROOF) -> (ok TH TREE GAPS TRACE) | (err E)
+  (extend FUEL THMS EXTS)                          -> (THMS AXIOMS E|N)
+  (find PROOF ID)                                  -> N | (ID RULE TH)
+  (dep A B) (incr_after A B n) (incr A n) (decr A B) (last A)  -> generated ItemID functions; E = IndexError
+PROOF = (ITEM…), ITEM = (ID RULE ARG (ID…) TH SUB), ID = (int…), TH = N | SEQ, SUB = N | (ITEM…),
+SEQ = ((hyp…) concl), ARG = N | (i int) | (s atom) | (l ARG…), THMS = ((name SEQ)…),
+EXTS = ((thm name SEQ N|PROOF) | other …), TREE = ((POS TH)…) in document order,
+TRACE = ((POS RULE TH|N SEQ)…).
+-/
+open Holpy Holpy.C02
+
+namespace Holpy.C02.Driver
+
+def intsOf (s : Sexp) : Option (List Int) := do (← s.toList?).mapM Sexp.toInt?
+def natsOf (s : Sexp) : Option (List Nat) := do (← s.toList?).mapM Sexp.toNat?
+
+def seqOf : Sexp → Option Seq
+  | .list [hs, c] => do some ⟨← natsOf hs, ← c.toNat?⟩
+  | _ => none
+
+def optSeqOf : Sexp → Option (Option Seq)
+  | .atom "N" => some none
+  | s => (seqOf s).map some
+
+partial def argOf : Sexp → Option Arg
+  | .atom "N" => some .none
+  | .list [.atom "i", n] => n.toInt?.map .num
+  | .list [.atom "s", .atom a] => some (.str (if a == "%e" then "" else a))
+  | .list (.atom "l" :: xs) => (xs.mapM argOf).map .list
+  | _ => none
+
+partial def itemOf : Sexp → Option Item
+  | .list [id, .atom rule, args, prevs, th, sub] => do
+    let sub ← match sub with
+      | .atom "N" => some none
+      | .list xs => (xs.mapM itemOf).map some
+      | _ => none
+    some ⟨← intsOf id, if rule == "%e" then "" else rule, ← argOf args, ← (← prevs.toList?).mapM intsOf, ← optSeqOf th, sub⟩
+  | _ => none
+
+def proofOf (s : Sexp) : Option (List Item) := do (← s.toList?).mapM itemOf
+
+def thmsOf (s : Sexp) : Option (List (String × Seq)) := do
+  (← s.toList?).mapM fun
+    | .list [.atom n, q] => do some (n, ← seqOf q)
+    | _ => none
+
+def extOf : Sexp → Option Ext
+  | .atom "other" => some .other
+  | .list [.atom "thm", .atom n, q, .atom "N"] => do some (.theorem n (← seqOf q) none)
+  | .list [.atom "thm", .atom n, q, p] => do some (.theorem n (← seqOf q) (some (← proofOf p)))
+  | _ => none
+
+def seqTo (s : Seq) : Sexp := .list [.list (s.hyps.map Sexp.ofNat), Sexp.ofNat s.concl]
+def optSeqTo : Option Seq → Sexp
+  | none => .atom "N"
+  | some s => seqTo s
+def posTo (p : List Nat) : Sexp := .list (p.map Sexp.ofNat)
+def idTo (p : List Int) : Sexp := .list (p.map Sexp.ofInt)
+def ruleTo (r : String) : Sexp := .atom (if r == "" then "%e" else r)
+
+partial def treeTo (pre : List Nat) (items : List Item) : List Sexp :=
+  (items.zipIdx.map fun (it, i) =>
+    let here := Sexp.list [posTo (pre ++ [i]), optSeqTo it.th]
+    match it.sub with
+    | none => [here]
+    | some s => here :: treeTo (pre ++ [i]) s).flatten
+
+def checkMsgTo : CheckMsg → String
+  | .idMismatch => "id-mismatch" | .emptyStated => "empty-stated" | .gaps => "gaps"
+  | .cannotDepend => "cannot-depend" | .prevNotFound => "prev-not-found" | .prevNone => "prev-none"
+  | .theoremNotFound => "theorem-not-found" | .invalidDerivation => "invalid-derivation"
+  | .invalidInput => "invalid-input" | .methodNotFound => "method-not-found"
+  | .mismatch => "mismatch" | .typing => "typing" | .notConclude => "not-conclude"
+
+def errTo : Err → String
+  | .check m => "check:" ++ checkMsgTo m
+  | .assertion => "assertion"
+  | .crash => "crash"
+  | .fuel => "fuel"
+  | .raised .invalidDerivation => "raised:invalid-derivation"
+  | .raised .typeError => "raised:type-error"
+  | .raised .theory => "raised:theory"
+  | .raised .assertion => "assertion"
+  | .raised (.other n) => "raised:other" ++ toString n
+
+def boolOpt : Option Bool → String
+  | none => "E" | some true => "T" | some false => "F"
+def idOpt : Option (List Int) → String
+  | none => "E" | some l => toString (idTo l)
+
+def handle (line : String) : String :=
+  match Sexp.parse line with
+  | some (.list [.atom "check", ng, co, lvl, fuel, thms, prf]) =>
+    match ng.toBool?, co.toBool?, lvl.toNat?, fuel.toNat?, thmsOf thms, proofOf prf with
+    | some ng, some co, some lvl, some fuel, some thms, some prf =>
+      match checkProof (Toy.rules thms) ⟨ng, co, lvl⟩ fuel prf with
+      | .error e => toString (Sexp.list [.atom "err", .atom (errTo e)])
+      | .ok r => toString (Sexp.list [.atom "ok", optSeqTo r.th, .list (treeTo [] r.root),
+          .list (r.gaps.map seqTo),
+          .list (r.trace.map fun e => .list [posTo e.pos, ruleTo e.rule, optSeqTo e.computed, seqTo e.th])])
+    | _, _, _, _, _, _ => "bad-op"
+  | some (.list [.atom "extend", fuel, thms, exts]) =>
+    match fuel.toNat?, thmsOf thms, exts.toList? with
+    | some fuel, some thms, some exts =>
+      match exts.mapM extOf with
+      | some exts =>
+        let (st, e) := checkedExtend Toy.rules fuel ⟨thms, []⟩ exts
+        let pr := fun (l : List (String × Seq)) => Sexp.list (l.map fun p => .list [.atom p.1, seqTo p.2])
+        toString (Sexp.list [pr st.theorems, pr st.axioms,
+          match e with | none => .atom "N" | some e => .atom (errTo e)])
+      | none => "bad-op"
+    | _, _, _ => "bad-op"
+  | some (.list [.atom "find", prf, id]) =>
+    match proofOf prf, intsOf id with
+    | some prf, some id =>
+      match findItem prf id with
+      | none => "N"
+      | some it => toString (Sexp.list [idTo it.id, ruleTo it.rule, optSeqTo it.th])
+    | _, _ => "bad-op"
+  | some (.list [.atom "dep", a, b]) =>
+    match intsOf a, intsOf b with
+    | some a, some b => boolOpt (Gen.can_depend_on a b)
+    | _, _ => "bad-op"
+  | some (.list [.atom "incr_after", a, b, n]) =>
+    match intsOf a, intsOf b, n.toInt? with
+    | some a, some b, some n => idOpt (Gen.incr_id_after a b n)
+    | _, _, _ => "bad-op"
+  | some (.list [.atom "incr", a, n]) =>
+    match intsOf a, n.toInt? with
+    | some a, some n => idOpt (Gen.incr_id a n)
+    | _, _ => "bad-op"
+  | some (.list [.atom "decr", a, b]) =>
+    match intsOf a, intsOf b with
+    | some a, some b => idOpt (Gen.decr_id a b)
+    | _, _ => "bad-op"
+  | some (.list [.atom "last", a]) =>
+    match intsOf a with
+    | some a => (match Gen.last a with | none => "E" | some n => toString n)
+    | _ => "bad-op"
+  | some (.list [.atom "canprove", a, b]) =>
+    match seqOf a, seqOf b with
+    | some a, some b => boolOpt (Gen.can_prove a b)
+    | _, _ => "bad-op"
+  | _ => "bad-op"
+
+end Holpy.C02.Driver
+
+def main : IO Unit := Holpy.lineLoop Holpy.C02.Driver.handle
